@@ -11,6 +11,7 @@
 #include <malloc.h>
 #include <pthread.h>
 #include <sched.h>
+#include <signal.h>
 #include <stdarg.h>
 #include <stdio.h>
 #include <stdlib.h>
@@ -313,6 +314,21 @@ verif_heap_kib(void)
   long d = heap_bytes() - heap_mark;
 
   return d <= 0 ? 0 : (d + 1023) / 1024;
+}
+
+/* 1 if SIGINT and SIGTERM are both blocked in the calling thread, 0 if neither
+   is, 2 otherwise. */
+int
+verif_sigblk(void)
+{
+  sigset_t cur;
+  int a, b;
+
+  if (pthread_sigmask(SIG_BLOCK, NULL, &cur) != 0)
+    return 2;
+  a = sigismember(&cur, SIGINT);
+  b = sigismember(&cur, SIGTERM);
+  return a == 1 && b == 1 ? 1 : a == 0 && b == 0 ? 0 : 2;
 }
 
 #else
